@@ -969,7 +969,7 @@ package psatoken
 //@   property C03 C19 C02 C05
 //@   requires e != nil && e.message != nil && signer != nil && e.message.Headers.Protected != nil
 //@   ensures[fail] ret1 != nil ==> ret0 == nil && (e.message.Signature == old(e.message.Signature) || len(e.message.Signature) == 0)
-//@   ensures[ok] ret1 == nil ==> ret0 != nil && fresh(ret0) && len(e.message.Signature) > 0 && len(old(e.message.Signature)) == 0 && e.message.Payload != nil && hasAlg(mapVal(e.message.Headers.Protected)) && algOf(mapVal(e.message.Headers.Protected)) == signerAlg(signer) && bytesVal(ret0) == coseEnc(protOf(e.message), mapVal(e.message.Headers.Unprotected), bytesVal(e.message.Payload), bytesVal(e.message.Signature)) && sigOver(e.message) == tbs(protOf(e.message), 0, bytesVal(e.message.Payload))
+//@   ensures[ok] ret1 == nil ==> ret0 != nil && fresh(ret0) && len(e.message.Signature) > 0 && len(old(e.message.Signature)) == 0 && e.message.Payload != nil && hasAlg(mapVal(e.message.Headers.Protected)) && algOf(mapVal(e.message.Headers.Protected)) == signerAlg(signer) && bytesVal(ret0) == coseEnc(protOf(e.message), mapVal(e.message.Headers.Unprotected), bytesVal(e.message.Payload), bytesVal(e.message.Signature)) && sigOver(e.message) == tbs(protOf(e.message), 0, bytesVal(e.message.Payload)) && coseDecOK(bytesVal(ret0)) && !cosePayloadNil(bytesVal(ret0)) && cosePayload(bytesVal(ret0)) == bytesVal(e.message.Payload) && coseSig(bytesVal(ret0)) == bytesVal(e.message.Signature) && protId(coseRawProt(bytesVal(ret0)), coseProtMap(bytesVal(ret0))) == protOf(e.message) && coseProtMap(bytesVal(ret0)) == mapVal(e.message.Headers.Protected)
 //@   ensures[payload] e.message.Payload == old(e.message.Payload) && e.message == old(e.message)
 //@   modifies e.message.Signature, mapOf(e.message.Headers.Protected)
 
@@ -980,7 +980,7 @@ package psatoken
 //@   ghostset signedAt(e) = old(heapVer()) when ret1 == nil
 //@   ensures[fresh-msg] e.message != nil && fresh(e.message)
 //@   ensures[fail] ret1 != nil ==> ret0 == nil && len(e.message.Signature) == 0
-//@   ensures[ok] ret1 == nil ==> ret0 != nil && cborEncOK(e.Claims, old(heapVer())) && bytesVal(e.message.Payload) == cborEnc(e.Claims, old(heapVer())) && hasAlg(mapVal(e.message.Headers.Protected)) && algOf(mapVal(e.message.Headers.Protected)) == signerAlg(signer) && len(e.message.Signature) > 0 && bytesVal(ret0) == coseEnc(protOf(e.message), mapVal(e.message.Headers.Unprotected), bytesVal(e.message.Payload), bytesVal(e.message.Signature)) && sigOver(e.message) == tbs(protOf(e.message), 0, bytesVal(e.message.Payload))
+//@   ensures[ok] ret1 == nil ==> ret0 != nil && cborEncOK(e.Claims, old(heapVer())) && e.message.Payload != nil && bytesVal(e.message.Payload) == cborEnc(e.Claims, old(heapVer())) && hasAlg(mapVal(e.message.Headers.Protected)) && algOf(mapVal(e.message.Headers.Protected)) == signerAlg(signer) && len(e.message.Signature) > 0 && bytesVal(ret0) == coseEnc(protOf(e.message), mapVal(e.message.Headers.Unprotected), bytesVal(e.message.Payload), bytesVal(e.message.Signature)) && sigOver(e.message) == tbs(protOf(e.message), 0, bytesVal(e.message.Payload)) && coseDecOK(bytesVal(ret0)) && !cosePayloadNil(bytesVal(ret0)) && cosePayload(bytesVal(ret0)) == bytesVal(e.message.Payload) && coseSig(bytesVal(ret0)) == bytesVal(e.message.Signature) && protId(coseRawProt(bytesVal(ret0)), coseProtMap(bytesVal(ret0))) == protOf(e.message) && coseProtMap(bytesVal(ret0)) == mapVal(e.message.Headers.Protected)
 //@   ensures[claims] e.Claims == old(e.Claims)
 //@   ensures[inv] evInv(e)
 //@   modifies e.message
@@ -993,7 +993,7 @@ package psatoken
 //@   ensures[gate] !claimsValid(e.Claims, old(heapVer())) ==> ret0 == nil && ret1 != nil
 //@   ensures[fresh-msg] e.message != nil && fresh(e.message)
 //@   ensures[fail] ret1 != nil ==> ret0 == nil && len(e.message.Signature) == 0
-//@   ensures[ok] ret1 == nil ==> ret0 != nil && claimsValid(e.Claims, old(heapVer())) && cborEncOK(e.Claims, old(heapVer())) && bytesVal(e.message.Payload) == cborEnc(e.Claims, old(heapVer())) && hasAlg(mapVal(e.message.Headers.Protected)) && algOf(mapVal(e.message.Headers.Protected)) == signerAlg(signer) && len(e.message.Signature) > 0 && bytesVal(ret0) == coseEnc(protOf(e.message), mapVal(e.message.Headers.Unprotected), bytesVal(e.message.Payload), bytesVal(e.message.Signature)) && sigOver(e.message) == tbs(protOf(e.message), 0, bytesVal(e.message.Payload))
+//@   ensures[ok] ret1 == nil ==> ret0 != nil && claimsValid(e.Claims, old(heapVer())) && cborEncOK(e.Claims, old(heapVer())) && e.message.Payload != nil && bytesVal(e.message.Payload) == cborEnc(e.Claims, old(heapVer())) && hasAlg(mapVal(e.message.Headers.Protected)) && algOf(mapVal(e.message.Headers.Protected)) == signerAlg(signer) && len(e.message.Signature) > 0 && bytesVal(ret0) == coseEnc(protOf(e.message), mapVal(e.message.Headers.Unprotected), bytesVal(e.message.Payload), bytesVal(e.message.Signature)) && sigOver(e.message) == tbs(protOf(e.message), 0, bytesVal(e.message.Payload)) && coseDecOK(bytesVal(ret0)) && !cosePayloadNil(bytesVal(ret0)) && cosePayload(bytesVal(ret0)) == bytesVal(e.message.Payload) && coseSig(bytesVal(ret0)) == bytesVal(e.message.Signature) && protId(coseRawProt(bytesVal(ret0)), coseProtMap(bytesVal(ret0))) == protOf(e.message) && coseProtMap(bytesVal(ret0)) == mapVal(e.message.Headers.Protected)
 //@   ensures[claims] e.Claims == old(e.Claims)
 //@   ensures[inv] evInv(e)
 //@   modifies e.message
@@ -1005,7 +1005,7 @@ package psatoken
 //@   ensures[fresh-msg] e.message != nil && fresh(e.message)
 //@   ensures[envelope] !coseDecOK(bytesVal(cwt)) ==> ret != nil && e.Claims == old(e.Claims) && len(e.message.Signature) == 0 && e.message.Payload == nil
 //@   ensures[claims-fail] coseDecOK(bytesVal(cwt)) && ret != nil ==> e.Claims == nil
-//@   ensures[ok] ret == nil ==> coseDecOK(bytesVal(cwt)) && e.Claims != nil && fresh(e.Claims) && prov(e.Claims) == bytesVal(e.message.Payload) && bytesVal(e.message.Payload) == cosePayload(bytesVal(cwt)) && bytesVal(e.message.Signature) == coseSig(bytesVal(cwt)) && protOf(e.message) == protId(coseRawProt(bytesVal(cwt)), coseProtMap(bytesVal(cwt))) && cborSelOK(bytesVal(e.message.Payload)) && !cborIsNull(bytesVal(e.message.Payload)) && inDom(profilesRegister, cborProfile(bytesVal(e.message.Payload)))
+//@   ensures[ok] ret == nil ==> coseDecOK(bytesVal(cwt)) && e.Claims != nil && fresh(e.Claims) && prov(e.Claims) == bytesVal(e.message.Payload) && bytesVal(e.message.Payload) == cosePayload(bytesVal(cwt)) && bytesVal(e.message.Signature) == coseSig(bytesVal(cwt)) && protOf(e.message) == protId(coseRawProt(bytesVal(cwt)), coseProtMap(bytesVal(cwt))) && mapVal(e.message.Headers.Protected) == coseProtMap(bytesVal(cwt)) && ((e.message.Payload == nil) == cosePayloadNil(bytesVal(cwt))) && len(e.message.Signature) > 0 && cborSelOK(bytesVal(e.message.Payload)) && !cborIsNull(bytesVal(e.message.Payload)) && inDom(profilesRegister, cborProfile(bytesVal(e.message.Payload)))
 //@   ensures[copies] ret == nil ==> (e.message.Payload == nil || fresh(e.message.Payload)) && fresh(e.message.Signature)
 //@   ensures[inv] evInv(e)
 //@   modifies e.message, e.Claims
@@ -1013,7 +1013,7 @@ package psatoken
 //@ func DecodeEvidenceFromCOSE
 //@   property C02 C03 C19 C20 C05 C18 C08
 //@   ensures[err] ret1 != nil ==> ret0 == nil
-//@   ensures[ok] ret1 == nil ==> ret0 != nil && fresh(ret0) && coseDecOK(bytesVal(buf)) && ret0.Claims != nil && ret0.message != nil && prov(ret0.Claims) == bytesVal(ret0.message.Payload) && bytesVal(ret0.message.Payload) == cosePayload(bytesVal(buf)) && cborSelOK(cosePayload(bytesVal(buf))) && evInv(ret0) && bound(ret0)
+//@   ensures[ok] ret1 == nil ==> ret0 != nil && fresh(ret0) && coseDecOK(bytesVal(buf)) && ret0.Claims != nil && ret0.message != nil && prov(ret0.Claims) == bytesVal(ret0.message.Payload) && bytesVal(ret0.message.Payload) == cosePayload(bytesVal(buf)) && bytesVal(ret0.message.Signature) == coseSig(bytesVal(buf)) && protOf(ret0.message) == protId(coseRawProt(bytesVal(buf)), coseProtMap(bytesVal(buf))) && mapVal(ret0.message.Headers.Protected) == coseProtMap(bytesVal(buf)) && ((ret0.message.Payload == nil) == cosePayloadNil(bytesVal(buf))) && len(ret0.message.Signature) > 0 && cborSelOK(cosePayload(bytesVal(buf))) && evInv(ret0) && bound(ret0)
 //@   ensures[reject] !coseDecOK(bytesVal(buf)) || !cborSelOK(cosePayload(bytesVal(buf))) || cborIsNull(cosePayload(bytesVal(buf))) ==> ret1 != nil
 //@   modifies nothing
 
@@ -1090,3 +1090,32 @@ package psatoken
 //@ bounded[C20] envelope : envelopes from an independent CBOR writer: tags 0..30 and none, array lengths 0..6, each of the four elements replaced by 8 other item types, wrapped / null / array / empty / integer payloads, trailing bytes :: boundedEnvelope()
 //@ bounded[C19,C03] histories : all operation sequences of length <= 4 over {Sign ok, Sign with failing signer, Sign with empty signature, ValidateAndSign on invalid claims, UnmarshalCOSE genuine, UnmarshalCOSE garbage} on one Evidence (1 554 sequences) :: boundedHistories()
 //@ bounded[C17] race-audit : 16 goroutines x 20 iterations of encode / getters / validate / decode / verify / create / sign on shared and private objects under the race detector, results compared with a sequential run :: raceAudit()
+
+// ---------------------------------------------------------------- ghost lemma functions (verif_lemmas.go, build tag verif)
+
+//@ func verifLemmaP2AllMandatorySet
+//@   property C11
+//@   requires c != nil && specBlankP2(*c) && inputComps(comps) && len(comps) > 0
+//@   ensures[validates] ret ==> validP2(*c)
+//@   modifies c.ClientID, c.SecurityLifeCycle, c.ImplID, c.Nonce, c.InstID, c.SwComponents, c.SwComponents.(*SwComponents[*SwComponent]).values
+
+//@ func verifLemmaP1AllMandatorySet
+//@   property C11
+//@   requires c != nil && specBlankP1(*c) && inputComps(comps) && (comps == nil || len(comps) > 0)
+//@   ensures[validates] ret ==> validP1(*c)
+//@   modifies c.ClientID, c.SecurityLifeCycle, c.ImplID, c.BootSeed, c.Nonce, c.InstID, c.SwComponents, c.NoSwMeasurements, c.SwComponents.(*SwComponents[*SwComponent]).values
+
+//@ func verifLemmaSettersCommute
+//@   property C11
+//@   requires a != nil && b != nil && a != b && a.VSI == nil && b.VSI == nil && a.BootSeed == nil && b.BootSeed == nil
+//@   ensures[same-view] ret ==> a.VSI != nil && b.VSI != nil && *a.VSI == *b.VSI && *a.VSI == vsi2 && a.BootSeed != nil && b.BootSeed != nil && *a.BootSeed == *b.BootSeed
+//@   ensures[others] a.ClientID == old(a.ClientID) && a.Nonce == old(a.Nonce) && a.SwComponents == old(a.SwComponents) && a.Profile == old(a.Profile) && a.CertificationReference == old(a.CertificationReference)
+//@   modifies a.VSI, a.BootSeed, b.VSI, b.BootSeed
+
+//@ func verifLemmaSignThenDecode
+//@   property C03 C19
+//@   requires e != nil && signer != nil && e.Claims != nil && evInv(e)
+//@   ensures[same-payload] ret1 ==> ret0 != nil && ret0.message != nil && e.message != nil && bytesVal(ret0.message.Payload) == bytesVal(e.message.Payload) && bytesVal(e.message.Payload) == cborEnc(e.Claims, old(heapVer())) && prov(ret0.Claims) == bytesVal(ret0.message.Payload)
+//@   ensures[same-cover] ret1 ==> bytesVal(ret0.message.Signature) == bytesVal(e.message.Signature) && protOf(ret0.message) == protOf(e.message) && mapVal(ret0.message.Headers.Protected) == mapVal(e.message.Headers.Protected)
+//@   ensures[same-verdict] ret1 ==> ret2
+//@   modifies e.message
